@@ -653,9 +653,22 @@ func injectPackets(log *Log, pkts [][]byte, inj *Inject, at uint32) [][]byte {
 		return pkts
 	}
 	var raw []byte
+	var raw2 []byte
 	switch inj.Kind {
 	case "invalid":
 		raw = inj.Raw
+	case "badcell":
+		// a well-formed UPDATE whose BEFORE image holds a cell the decoder cannot render (a JSON document with an opaque value of
+		// a column type JSON cannot hold) while the after image is fine: a decode failure inside a decodable event
+		t := badCellTable()
+		tm := &Ev{K: "tablemap", TS: 1600000001, Tbl: t, Fake: true}
+		log.layoutEv(tm, at)
+		cell := func(doc []byte) Cell { return Cell{St: "val", Bytes: append(leN(uint64(len(doc)), 4), doc...)} }
+		id := Cell{St: "val", Bytes: []byte{1, 0, 0, 0}}
+		up := &Ev{K: "update", TS: 1600000001, Tbl: t, Fake: true, Rows: []RowPair{{B: []Cell{id, cell(unrenderableJSON())},
+			A: []Cell{id, cell(JsonbDoc(&JNode{K: "str", S: "fine"}, false))}}}}
+		log.layoutEv(up, at)
+		raw, raw2 = tm.Bytes, up.Bytes
 	default:
 		e := &Ev{K: inj.Kind, TS: 1600000001, SQL: "insert into t values (1)", Fake: true}
 		log.layoutEv(e, at)
@@ -667,7 +680,32 @@ func injectPackets(log *Log, pkts [][]byte, inj *Inject, at uint32) [][]byte {
 	}
 	out := append([][]byte{}, pkts[:i]...)
 	out = append(out, raw)
+	if raw2 != nil {
+		out = append(out, raw2)
+	}
 	return append(out, pkts[i:]...)
+}
+
+func badCellTable() *Table {
+	return &Table{ID: 9999, DB: "dq", Name: "tbad", Cols: []Col{
+		{Name: "id", Typ: 3, Kind: "long", Nullable: true}, {Name: "doc", Typ: 245, MetaB: []byte{4}, Kind: "blob", P1: 4, Nullable: true}}}
+}
+
+// unrenderableJSON: {"a": 7, "b": [1, <opaque BIT(16)>]} in the small format - valid binary JSON holding an opaque value of a
+// column type the printer has no rendering for.
+func unrenderableJSON() []byte {
+	arr := []byte{2, 0, 0, 0, 5, 1, 0, 15, 0, 0}
+	arr[8] = byte(len(arr))
+	arr = append(arr, 16, 2, 0xab, 0xcd)
+	arr[2] = byte(len(arr))
+	obj := []byte{2, 0, 0, 0, 0, 0, 1, 0, 0, 0, 1, 0, 5, 7, 0, 2, 0, 0}
+	ko := len(obj)
+	obj = append(obj, 'a', 'b')
+	obj[4], obj[8] = byte(ko), byte(ko+1)
+	obj[16] = byte(len(obj))
+	obj = append(obj, arr...)
+	obj[2] = byte(len(obj))
+	return append([]byte{0}, obj...)
 }
 
 // runAttempt performs one Stream() call under plan a and records everything observable.
@@ -681,6 +719,13 @@ func (rs *runState) runAttempt(att int, a AttemptPlan, dsnOverride string) {
 	rs.mapper.mu.Lock()
 	if a.Log != nil && sc.Log2 == a.Log {
 		rs.mapper.tables = a.Log.Tables() // the other master's schema
+	}
+	if a.Inject != nil && a.Inject.Kind == "badcell" {
+		nt := map[string]*Table{"dq.tbad": badCellTable()}
+		for k, v := range rs.mapper.tables {
+			nt[k] = v
+		}
+		rs.mapper.tables = nt
 	}
 	rs.mapper.fault = a.MapperFault
 	rs.mapper.att = att
